@@ -414,6 +414,39 @@ def check_barriers_all_modes(rep, prog):
                   "the exit status is computed (%s): with malformed input the command ends with a status other than 0 or 1" % (repr(code)[:120],),
                   node=e.node)
     rep.count("exit sites of the command line", nx)
+    # ... and the option parser does not look into files: a type= / action callable of the repository that opens or inspects
+    # the named file turns a malformed input file into an argparse usage error (status 2) before any decoding starts
+    import ast as _ast
+    from .. import effects as _eff
+    nconv = 0
+    for cs in _eff.call_sites(prog):
+        if not (isinstance(cs.node.func, _ast.Attribute) and cs.node.func.attr == "add_argument"):
+            continue
+        for kw in cs.node.keywords:
+            if kw.arg not in ("type", "action") or not isinstance(kw.value, (_ast.Name, _ast.Lambda, _ast.Attribute)):
+                continue
+            body = None
+            if isinstance(kw.value, _ast.Lambda):
+                body = kw.value
+            elif isinstance(kw.value, _ast.Name):
+                for f_ in cs.module.all_functions():
+                    if f_.name == kw.value.id and f_.cls is None:
+                        body = f_.node
+                for c_ in _ast.walk(cs.module.tree):
+                    if isinstance(c_, _ast.ClassDef) and c_.name == kw.value.id:
+                        body = c_
+            if body is None:
+                continue
+            nconv += 1
+            looks = [c for c in _ast.walk(body) if isinstance(c, _ast.Call) and (
+                (isinstance(c.func, _ast.Name) and c.func.id == "open") or
+                (_eff.dotted(c.func) or "").startswith(("os.", "io.", "pathlib.", "Path", "stat.", "mmap.")))]
+            rep.check(not looks, rule, "%s: option converter %s does not inspect files" % (cs.where, _ast.unparse(kw.value)[:40]), cs.where,
+                      looks[0] if looks else cs.node, "the %s= callable of an option (%s) opens / inspects a file (%s): a missing, unreadable or "
+                      "malformed input file ends the command with argparse's status 2 instead of the decode barrier's message and status 1" % (
+                          kw.arg, _ast.unparse(kw.value)[:40], _ast.unparse(looks[0])[:60] if looks else ""),
+                      node=looks[0] if looks else cs.node, file=cs.module.rel)
+    rep.count("repository callables used as option converters", nconv)
     return fm
 
 
@@ -501,4 +534,7 @@ def run(rep, prog, thorough):
     # unchecked slice is silently shorter for a truncated log) - rule shared with C04
     from .c04 import check_sections
     check_sections(rep, prog)
+    # "reported on stderr": no decoder / library function prints its failure message to stdout (who-may-print, shared with C09)
+    from .c09 import check_decoder_prints
+    check_decoder_prints(rep, prog, rule="C05.R3.barrier-reports-on-stderr")
     rep.note("R5 (every proper prefix of a well-formed PEL is rejected) is derived from R1 + C01.R4 (exact consumption), not re-proved here")
